@@ -54,7 +54,7 @@ pub fn gen(rng: &mut Rng, _tier: Tier) -> SchedCase {
 		warm: rng.usize_below(3),
 		steps,
 		callbacks: rng.urange(1, 5),
-		switch_prob: *rng.pick(&[0.1, 0.3, 0.6, 0.9]),
+		switch_prob: *rng.pick(&[0.03, 0.1, 0.3, 0.6, 0.9]),
 		state_reads: if rng.chance(0.3) { Some(rng.urange(2, 12)) } else { None },
 	}
 }
